@@ -49,6 +49,8 @@ void set_exact_fit(bool on) {
 }
 void set_soft_budget(bool) {
 }
+void set_stall_abandon(bool) {
+}
 int current_task() {
     return g_task;
 }
